@@ -6,7 +6,7 @@ verus! {
 //@ include prelude/state.rs
 //@ include prelude/ansi_term.rs
 //@ include prelude/style.rs
-//@ shims merge_conflict grep config cli ansi side_by_side
+//@ shims merge_conflict grep config cli ansi side_by_side line_numbers
 //@ broadcast vax::vax_group axiom_width_of_appended_spaces
 //@ include prelude/minusplus.rs
 //@ type src/cli.rs Width
@@ -15,7 +15,7 @@ verus! {
 //@ type src/features/side_by_side.rs Panel noderive
 pub type SideBySideData = LeftRight<Panel>;
 pub type LineSections<'a, S> = Vec<(S, &'a str)>;
-//@ type src/config.rs Config keep=side_by_side_data,truncation_symbol,null_style,minus_empty_line_marker_style,plus_empty_line_marker_style
+//@ type src/config.rs Config keep=side_by_side_data,truncation_symbol,null_style,minus_empty_line_marker_style,plus_empty_line_marker_style,keep_plus_minus_markers
 
 /// Display width of a string with escape sequences ignored (`ansi::measure_text_width`). Uninterpreted.
 pub uninterp spec fn vis_width(s: Seq<char>) -> nat;
@@ -63,6 +63,27 @@ impl MinusPlus<Panel> {
 //@| ensures panel_side == Left ==> vis_width(final(panel_line)@) == config.side_by_side_data.minus.width,  // @C07:left.panel.has.exactly.the.panel.width.so.the.right.panel.starts.at.the.same.column
 //@rewrite <<<ansi::truncate_str(panel_line, panel_width, &config.truncation_symbol).to_string()>>> => <<<verif_truncate_str_to_string(panel_line, panel_width, &config.truncation_symbol)>>>
 //@rewrite <<<&fill_style .paint(" ".repeat(panel_width - text_width)) .to_string()>>> => <<<&verif_paint_spaces(fill_style, panel_width - text_width)>>>
+
+// ---- the width left for text in a panel ----
+pub type SideBySideLineWidth = MinusPlus<usize>;
+#[verifier::external_body]
+pub struct LineNumbersData { _p: u8 }
+impl LineNumbersData {
+    /// the width of the number columns of each panel (format strings; uninterpreted)
+    pub uninterp spec fn fw(&self) -> SideBySideLineWidth;
+    #[verifier::external_body]
+    pub fn formatted_width(&self) -> (r: SideBySideLineWidth) ensures r == self.fw() { unimplemented!() }
+}
+pub open spec fn sat_sub(a: usize, b: usize) -> usize { if a >= b { (a - b) as usize } else { 0 } }
+/// C07: what is left of a panel for text: its width less the number columns less the marker column - never negative, however
+/// narrow the panel (a panel of 4 columns with a 6-column number field leaves 0, it does not wrap around)
+pub open spec fn text_width_spec(config: &Config, data: &LineNumbersData, side: PanelSide) -> usize {
+    sat_sub(sat_sub(mp_get(config.side_by_side_data, side).width, mp_get(data.fw(), side)), if config.keep_plus_minus_markers { 1usize } else { 0usize })
+}
+//@ fn src/features/side_by_side.rs available_line_width
+//@| ensures r.minus == text_width_spec(config, data, Left) && r.plus == text_width_spec(config, data, Right),  // @C07,C03:the.text.width.of.a.panel.is.its.width.less.number.and.marker.columns.and.never.negative
+//@rewrite <<<let line_width = |side: PanelSide| {>>> => <<<let line_width = |side: PanelSide| -> (r: usize) ensures r == text_width_spec(config, data, side) {>>>
+//@rewrite <<<config.keep_plus_minus_markers as usize>>> => <<<(if config.keep_plus_minus_markers { 1usize } else { 0usize })>>>
 
 } // verus!
 fn main() {}
